@@ -714,6 +714,8 @@ package types
 // back to t (under the head mode) is an argument about the grammar, not mechanised.
 //@ macro modeStr(m Modality) string = ite(is(m, ReplicableMode), "rep", ite(is(m, MulticastMode), "mul", ite(is(m, AffineMode), "aff", ite(is(m, LinearMode), "lin", ite(is(m, UnsetMode), "unset", ite(is(m, InvalidMode), "invalid: " + InvalidMode(m).mode, modeStrOther(m)))))))
 //@ spec modeStrOther(m Modality) string
+// C15 rests on the mode spellings (what a printed mode reads back as): the check of C15 discharges C17's obligations too.
+//@ includes C15 C17
 //@ macro needsParen(t SessionType) bool = is(t, SendType) || is(t, ReceiveType) || is(t, UpType) || is(t, DownType)
 //@ macro lp(t SessionType) string = ite(needsParen(t), "(" + pp(t) + ")", pp(t))
 //@ spec ppOpts(bs []Option, n int) string = ite(n <= 0, "", ite(n == 1, bs[0].Label + " : " + pp(bs[0].SessionType), ppOpts(bs, n - 1) + ", " + bs[n-1].Label + " : " + pp(bs[n-1].SessionType)))
